@@ -29,6 +29,7 @@ func main() {
 	replay := flag.String("replay", "", "replay file")
 	bound := flag.Int("bound", -1, "deviation bound override for this pass")
 	list := flag.Bool("list", false, "list property ids")
+	aux := flag.Bool("aux", false, "run the property's auxiliary entry point with the remaining arguments")
 	needs := flag.Bool("needs", false, "print the binaries (build variants) the check needs")
 	flag.Parse()
 
@@ -90,7 +91,20 @@ func main() {
 				fmt.Println(b)
 			}
 		}
+		for _, b := range p.Extra {
+			if !seen[b] {
+				seen[b] = true
+				fmt.Println(b)
+			}
+		}
 		return
+	}
+	if *aux {
+		if p.Aux == nil {
+			fmt.Println("HARNESS-ERROR no aux entry for", p.ID)
+			os.Exit(2)
+		}
+		os.Exit(p.Aux(*tier, flag.Args()))
 	}
 	if *isWorker {
 		syscall.Setrlimit(syscall.RLIMIT_AS, &syscall.Rlimit{Cur: *mem, Max: *mem})
